@@ -86,7 +86,13 @@ def par_differential(ctx, n, pools=(1, 2, 16)):
                 found = True
             if [(r["E"], r["R"], r["S"]) for r in a] == [(r["E"], r["R"], r["S"]) for r in s]:
                 same += 1
-        ne, be = T.check_expectations(ctx, lambda c, sig, rep, no_input=False: c.violation("par:" + sig, dict(rep, pool=p)), scs, out["impl_text"], "pool%d" % p)
+        seen_sigs = set()
+
+        def rep_once(c, sig, rep, no_input=False, seen_sigs=seen_sigs, p=p):
+            if sig not in seen_sigs:
+                seen_sigs.add(sig)
+                c.violation("par:" + sig, dict(rep, pool=p))
+        ne, be = T.check_expectations(ctx, rep_once, scs, out["impl_text"], "pool%d" % p)
         stats["verdicts_against_exact_feasibility"] = stats.get("verdicts_against_exact_feasibility", 0) + ne
         if be:
             found = True
